@@ -148,15 +148,12 @@ def pkgOf (secs : List Bytes) (k : Index.SecKind) : Bytes :=
 /-- one `find_cu` / `find_tu` followed by reading every section of the returned `Dwarf` -/
 def dwpLookupS (e : Endian) (ix : Index.UnitIndex) (secs : List Bytes) (str addr ranges : Bytes)
     (id : Nat) : String :=
-  match Index.find e ix id with
-  | none => "n"
-  | some row =>
-    outS (fun (slices : List (Index.SecKind × Bytes)) =>
+  outS (fun
+    | none => "n"
+    | some (row, (slices : List (Index.SecKind × Bytes))) =>
       s!"{row}:" ++ join "," (slices.map fun p => toHex p.2) ++ "|" ++
         join "," [toHex addr, toHex ranges, toHex str, "-", "-", "-"])
-      (do
-        let cols ← Index.sections e ix row
-        Index.packageSlices (pkgOf secs) cols Index.sliceOrder)
+    (Index.findUnit e ix (pkgOf secs) id)
 
 def handle (op : String) (args : List String) : Option String :=
   match op, args with
